@@ -556,6 +556,17 @@ class ExprMixin:
         raise Unsupported("arithmetic operator")
 
     def ev_Compare(self, e, p):
+        if self.cur is not None and "empty_tests" in self.cur.options and not self.spec_mode and len(e.ops) == 1 \
+                and isinstance(e.ops[0], (ast.Eq, ast.NotEq, ast.Gt)) and isinstance(e.comparators[0], ast.Constant) and e.comparators[0].value == 0 \
+                and type(e.comparators[0].value) is int and isinstance(e.left, ast.Call) and isinstance(e.left.func, ast.Name) \
+                and e.left.func.id == "len" and len(e.left.args) == 1 and not e.left.keywords:
+            s = self.ev(e.left.args[0], p)
+            if isinstance(s.ty, T.Set) and s.ty.e.scalar:
+                # len(s) == 0 / != 0 / > 0 on a set as an emptiness test: s is non-empty iff it contains some(s) (axiom some_def), with no
+                # cardinality term -- a finite set has length 0 exactly when it has no member
+                from .theory import some_fn
+                non_empty = s.t[some_fn(s.ty.e)(s.t)]
+                return T.sv_bool(z3.Not(non_empty) if isinstance(e.ops[0], ast.Eq) else non_empty)
         left = self.ev(e.left, p)
         terms = []
         for op, ce in zip(e.ops, e.comparators):
